@@ -59,6 +59,17 @@ impl FrameAckQueue {
         if self.receive_window.contains(frame_id) {
             self.receive_window.advance(frame_id.wrapping_add(1));
 
+            // Acknowledgements which could not be sent yet are only kept for frames within one
+            // window of the newest: an honest sender has forgotten anything older, and the queue
+            // must not grow without bound while acknowledgements are held back by the send rate
+            while let Some(first_entry) = self.entries.front() {
+                if frame_id.wrapping_sub(first_entry.base_id) >= self.receive_window.size {
+                    self.entries.pop_front();
+                } else {
+                    break;
+                }
+            }
+
             if let Some(last_entry) = self.entries.back_mut() {
                 let bit = frame_id.wrapping_sub(last_entry.base_id);
                 if bit < 32 {
